@@ -7,11 +7,80 @@ from .langgen import build_lang, build_model, lang_payload, inst_payload, jtxt
 ERRMAP = {'AttackGraphStepExpressionError': 'AttackGraphStepExpressionError', 'LookupError': 'LookupError',
           'LanguageGraphException': 'LanguageGraphException', 'RecursionError': 'Recursion', 'KeyError': 'KeyError'}
 
-def impl_generate(spec, inst, keep=False):
+def churn_plan(spec, inst, rnd, member_p=0.4):
+    """A superset of `inst` (extra members of existing links, extra links incl. self-links, an extra asset) together
+    with the API calls that take the extras away again.  The model is built from the superset, an attack graph is
+    generated once (whatever the code caches is filled), the extras are removed through the API — and the graph
+    generated *then* must be the graph of `inst`."""
+    from .langgen import assoc_class_name
+    byname = {a['name']: a for a in spec['assets']}
+    def anc(t):
+        out = []
+        while t: out.append(t); t = byname[t]['superAsset']
+        return out
+    big = copy.deepcopy(inst)
+    plan = []
+    decl = {}
+    for a in spec['associations']: decl[(assoc_class_name(spec, a), a['leftField'], a['rightField'])] = a
+    seen = {(l['cls'], x, y) for l in inst['links'] for x in l['left'] for y in l['right']}
+    types = {a['id']: a['type'] for a in inst['assets']}
+    for i, l in enumerate(big['links']):
+        a = decl.get((l['cls'], l['lf'], l['rf']))
+        if a is None or rnd.random() > member_p: continue
+        side = rnd.choice(['left', 'right'])
+        want, mx = (a['leftAsset'], a['leftMultiplicity']['max']) if side == 'left' else (a['rightAsset'], a['rightMultiplicity']['max'])
+        other = l['right'] if side == 'left' else l['left']
+        # (remove_asset_from_association takes the asset out of *both* fields: the extra member must be new to the link)
+        cands = [x for x, t in types.items() if want in anc(t) and x not in l['left'] and x not in l['right']
+                 and all(((l['cls'], x, o) if side == 'left' else (l['cls'], o, x)) not in seen for o in other)]
+        if cands and (mx is None or len(l[side]) + 1 <= mx):
+            x = rnd.choice(cands)
+            l[side] = l[side] + [x]
+            seen |= {(l['cls'], x, o) if side == 'left' else (l['cls'], o, x) for o in other}
+            plan.append(('member', i, x))
+    if spec['associations'] and rnd.random() < 0.6:
+        a = rnd.choice(spec['associations'])
+        cls = assoc_class_name(spec, a)
+        L = [x for x, t in types.items() if a['leftAsset'] in anc(t)]
+        R = [x for x, t in types.items() if a['rightAsset'] in anc(t)]
+        both = [x for x in L if x in R]
+        if L and R:
+            x = rnd.choice(both) if both and rnd.random() < 0.5 else rnd.choice(L)
+            y = x if x in R and rnd.random() < 0.5 else rnd.choice(R)
+            if (cls, x, y) not in seen:
+                big['links'].append({'cls': cls, 'lf': a['leftField'], 'rf': a['rightField'], 'left': [x], 'right': [y]})
+                seen.add((cls, x, y))
+                plan.append(('link', len(big['links']) - 1, None))
+    concrete = [a['name'] for a in spec['assets'] if not a['isAbstract']]
+    if concrete and rnd.random() < 0.4:
+        nid = max([a['id'] for a in inst['assets']] + [0]) + 7
+        t = rnd.choice(concrete)
+        big['assets'].append({'id': nid, 'name': f'churn{nid}', 'type': t, 'defenses': {}})
+        for a in spec['associations']:
+            if a['leftAsset'] in anc(t) and rnd.random() < 0.5:
+                R = [x for x, ty in types.items() if a['rightAsset'] in anc(ty)]
+                if R:
+                    big['links'].append({'cls': assoc_class_name(spec, a), 'lf': a['leftField'], 'rf': a['rightField'], 'left': [nid], 'right': [rnd.choice(R)]})
+                    break
+        plan.append(('asset', None, nid))
+    return big, plan
+
+def impl_generate(spec, inst, keep=False, churn=None, member_p=0.4):
     from maltoolbox.attackgraph import AttackGraph
     try:
         lg, fac = build_lang(spec)
-        m, byid = build_model(fac, inst)
+        if churn is None:
+            m, byid = build_model(fac, inst)
+        else:
+            big, plan = churn_plan(spec, inst, churn, member_p)
+            m, byid = build_model(fac, big)
+            assocs = list(m.associations)
+            AttackGraph(lg, m)                       # an earlier generation on the larger model
+            # removals of single members last: the other removals may reset what the code caches
+            for kind, i, x in sorted(plan, key=lambda p: p[0] == 'member'):
+                if kind == 'member': m.remove_asset_from_association(byid[x], assocs[i])
+                elif kind == 'link': m.remove_association(assocs[i])
+                else: m.remove_asset(byid[x])
         for a in inst['assets']:
             # names chosen by the model (unnamed assets, automatic renaming of duplicates) are read back
             a['name'] = str(byid[a['id']].name)
